@@ -66,6 +66,11 @@ type Client struct {
 	NotifyReceivedErr func(addrs []btcutil.Address) error
 	// FailNth makes the n-th (1-based) call of the named method fail once.
 	FailNth map[string]int
+	// DuringRescan, when set, is called once while a Rescan call is in progress
+	// (after the watch lists were extended, before the chain is scanned): blocks
+	// that arrive meanwhile are announced before the rescan finishes, and the
+	// rescan covers them, as with a backend that rescans up to its current tip.
+	DuringRescan func()
 	// FailHeightOnce makes GetBlockHash fail once when asked for this height (0: off).
 	FailHeightOnce int64
 	counts  map[string]int
@@ -478,6 +483,13 @@ func (cl *Client) Rescan(start *chainhash.Hash, addrs []btcutil.Address, ops map
 	sb := cl.C.ByHash(*start)
 	if sb == nil {
 		return fmt.Errorf("simchain: rescan start block %v unknown", start)
+	}
+	cl.mu.Lock()
+	hook := cl.DuringRescan
+	cl.DuringRescan = nil
+	cl.mu.Unlock()
+	if hook != nil {
+		hook()
 	}
 	best := cl.C.Best()
 	from := sb.Height + 1
